@@ -222,8 +222,18 @@ class Ctx(object):
     def evaluator(self, depth=4, inline_filter=None):
         if depth == 0 and inline_filter is None:
             # even "no inlining" reads through helpers that did not exist when the tables were written
-            return S.Evaluator(self.fns, inline_depth=3, inline_filter=self.new_helper)
-        return S.Evaluator(self.fns, inline_depth=depth, inline_filter=inline_filter)
+            ev = S.Evaluator(self.fns, inline_depth=3, inline_filter=self.new_helper)
+        else:
+            ev = S.Evaluator(self.fns, inline_depth=depth, inline_filter=inline_filter)
+        ev.consts = self.consts
+        ev.new_const = self.new_const
+        return ev
+
+    def new_const(self, path):
+        if getattr(self, '_vocab_consts', None) is None:
+            with open(os.path.join(VERIF, 'spec', 'vocabulary_consts.txt')) as fh:
+                self._vocab_consts = set(l.strip() for l in fh if l.strip() and not l.startswith('#'))
+        return path not in self._vocab_consts
 
     def events(self, path, depth=0, inline_filter=None):
         self.fn(path)
